@@ -9,6 +9,7 @@ import (
 	"os"
 	"path"
 	"path/filepath"
+	"sort"
 	"strings"
 	"sync"
 
@@ -131,14 +132,29 @@ func (db *MultiBucketBackend) ListBucket(bucket string, prefix *gofakes3.Prefix,
 func (db *MultiBucketBackend) getBucketWithFilePrefixLocked(bucket string, prefixPath, prefixPart string) (*gofakes3.ObjectList, error) {
 	bucketPath := path.Join(bucket, prefixPath)
 
+	response := gofakes3.NewObjectList()
+
+	if bucketPath != bucket {
+		if exists, err := afero.DirExists(db.bucketFs, filepath.FromSlash(bucket)); err != nil {
+			return nil, err
+		} else if !exists {
+			return nil, gofakes3.BucketNotFound(bucket)
+		}
+		// A prefix that names no directory matches no keys; that is an empty
+		// listing, not a missing bucket.
+		if isDir, err := afero.DirExists(db.bucketFs, filepath.FromSlash(bucketPath)); err != nil {
+			return nil, err
+		} else if !isDir {
+			return response, nil
+		}
+	}
+
 	dirEntries, err := afero.ReadDir(db.bucketFs, filepath.FromSlash(bucketPath))
 	if os.IsNotExist(err) {
 		return nil, gofakes3.BucketNotFound(bucket)
 	} else if err != nil {
 		return nil, err
 	}
-
-	response := gofakes3.NewObjectList()
 
 	for _, entry := range dirEntries {
 		object := entry.Name()
@@ -151,7 +167,7 @@ func (db *MultiBucketBackend) getBucketWithFilePrefixLocked(bucket string, prefi
 		}
 
 		if entry.IsDir() {
-			response.AddPrefix(path.Join(prefixPath, prefixPart, entry.Name()) + "/")
+			response.AddPrefix(path.Join(prefixPath, entry.Name()) + "/")
 
 		} else {
 			size := entry.Size()
@@ -221,6 +237,10 @@ func (db *MultiBucketBackend) getBucketWithArbitraryPrefixLocked(bucket string, 
 	}); err != nil {
 		return nil, err
 	}
+
+	// Walk visits a directory before a sibling whose name sorts between
+	// "dir" and "dir/" (e.g. "a/b" before "a b"); S3 lists in key order.
+	sort.Slice(response.Contents, func(i, j int) bool { return response.Contents[i].Key < response.Contents[j].Key })
 
 	return response, nil
 }
